@@ -61,6 +61,65 @@ def gen(seed, tier):
         yield {"prop": PROP, "op": rng.choice(["nand", "nor", "lf"]), "d": d, "dflt": dflt, "ops": ops,
                "kind": "owned" if d >= 1 else rng.choice(["free", "owned"]),
                "stale": rng.random() < 0.3}
+    yield from gen_tuple(seed, tier)
+
+
+def _tuple_fibers(rng, k, n, pool, dflt, maxlen):
+    """random 1-level fiber with k-tuple coordinates over 0..n-1 per component, sorted"""
+    import itertools
+    allc = list(itertools.product(range(n), repeat=k))
+    m = rng.randrange(0, min(maxlen, len(allc)) + 1)
+    cs = sorted(rng.sample(allc, m))
+    return [[list(c), rng.choice(pool)] for c in cs]
+
+
+def gen_tuple(seed, tier):
+    rng = random.Random(seed + 17)
+    n = 1500 if tier == "quick" else 40000
+    for i in range(n):
+        opk = rng.choice(["and", "and", "and", "or", "xor", "sub"])
+        if opk == "and":
+            ka, kb = rng.choice([(1, 1), (2, 2), (1, 2), (2, 1), (1, 3), (3, 1), (2, 3), (3, 2), (3, 3)])
+        else:
+            ka = kb = rng.choice([1, 2, 3])
+        dflt = rng.choice([0, 0, 7])
+        pool = (1, 2, -3, 7, 0)
+        a = _tuple_fibers(rng, ka, 3, pool, dflt, 6)
+        b = _tuple_fibers(rng, kb, 3, pool, dflt, 6)
+        # a k-tuple operand of arity 1 may also be given with plain int coordinates
+        yield {"prop": PROP, "op": "tuple", "opk": opk, "ka": ka, "kb": kb, "dflt": dflt, "a": a, "b": b,
+               "kind": "free", "intA": ka == 1 and kb > 1 and rng.random() < 0.5, "intB": kb == 1 and ka > 1 and rng.random() < 0.5}
+
+
+def _run_tuple(case):
+    ft = H.ft()
+    dflt = case["dflt"]
+
+    def mk(rows, as_int):
+        cs = [r[0][0] if as_int else tuple(r[0]) for r in rows]
+        return ft.Fiber(cs, [r[1] for r in rows], default=dflt)
+    fa, fb = mk(case["a"], case["intA"]), mk(case["b"], case["intB"])
+    before = (H.snapshot(fa), H.snapshot(fb))
+    side = {}
+
+    def cj(c):
+        return list(c) if isinstance(c, tuple) else [c]
+    try:
+        opk = case["opk"]
+        if opk == "and":
+            rows = [[cj(c), _ref(fa, pa, dflt), _ref(fb, pb, dflt)] for c, (pa, pb) in fa & fb]
+        elif opk == "sub":
+            rows = [[cj(c), _ref(fa, pa, dflt)] for c, pa in fa - fb]
+        else:
+            z = (fa | fb) if opk == "or" else (fa ^ fb)
+            rows = [[cj(c), m, _ref(fa, pa, dflt), _ref(fb, pb, dflt)] for c, (m, pa, pb) in z]
+        case["impl"] = rows
+    except Exception as e:
+        case["impl"] = []
+        side["no_exception:" + H.err_class(e)] = False
+    side["operands_unchanged"] = before == (H.snapshot(fa), H.snapshot(fb))
+    case["side"] = side
+    return case
 
 
 def _ref(fiber, p, dflt):
@@ -122,6 +181,8 @@ def run(case):
     ft = H.ft()
     if "ops" in case:
         return _run_nary(case)
+    if case["op"] == "tuple":
+        return _run_tuple(case)
     d, dflt, op = case["d"], case["dflt"], case["op"]
     fa = H.build_fiber(case["a"], d + 1, dflt)
     fb = H.build_fiber(case["b"], d + 1, dflt)
@@ -165,6 +226,8 @@ def nontrivial(case, verdict):
     t = set(verdict.get("tags", []))
     if "ops" in case:
         return "nonempty-result" in t or "follower-absent" in t
+    if case["op"] == "tuple":
+        return "some-empty" not in t
     return not ({"emptyA", "emptyB"} & t) and bool(t & {"match", "skipA", "skipB", "tailA", "tailB"})
 
 
@@ -172,6 +235,8 @@ def signature(case, verdict, failed):
     """classification of a failing case for known_findings.json"""
     if "ops" in case:
         return f"{case['op']}:{'/'.join(sorted(f.split(':')[0] for f in failed))}"
+    if case["op"] == "tuple":
+        return f"tuple:{case['opk']}:{case['ka']}-{case['kb']}:{'/'.join(sorted(f.split(':')[0] for f in failed))}"
     if "rank_lists_unchanged" in failed and case["op"] in ("or", "xor") and case["kind"] == "owned":
         return f"{case['op']}:rank-list-growth"
     return f"{case['op']}:{'/'.join(sorted(failed))}"
